@@ -28,10 +28,22 @@ type scenario struct {
 	Close   int  `json:"close"`
 	Cancel  bool `json:"cancel"`
 	Feeder  int  `json:"feeder"` // connections delivered through IngressListener
+	// FeederErr: the attached listener reports one error that is not
+	// net.ErrClosed before it hands out its connections
+	FeederErr bool `json:"feeder_error,omitempty"`
+	// WithErr: every second direct ingress passes an error along with its connection
+	WithErr bool `json:"ingress_with_error,omitempty"`
 }
 
 func (s scenario) String() string {
-	return fmt.Sprintf("ingress=%d accept=%d close=%d cancel=%v feeder=%d", s.Ingress, s.Accept, s.Close, s.Cancel, s.Feeder)
+	x := fmt.Sprintf("ingress=%d accept=%d close=%d cancel=%v feeder=%d", s.Ingress, s.Accept, s.Close, s.Cancel, s.Feeder)
+	if s.FeederErr {
+		x += " feeder-error"
+	}
+	if s.WithErr {
+		x += " ingress-with-error"
+	}
+	return x
 }
 
 type fakeConn struct {
@@ -53,9 +65,19 @@ type fakeListener struct {
 	conns []*fakeConn
 	next  int32
 	given *int32 // how many connections were handed out
+	// errFirst: the first Accept fails with an error that is not net.ErrClosed
+	errFirst int32
 }
 
+var errFeeder = errors.New("accept: too many open files")
+
+// errCarried travels with a connection through IngressConn.
+var errCarried = errors.New("carried along with the connection")
+
 func (l *fakeListener) Accept() (net.Conn, error) {
+	if atomic.CompareAndSwapInt32(&l.errFirst, 1, 0) {
+		return nil, errFeeder
+	}
 	i := int(atomic.AddInt32(&l.next, 1)) - 1
 	if i >= len(l.conns) {
 		return nil, net.ErrClosed
@@ -109,15 +131,23 @@ func body(sc scenario) *obs {
 	}
 	for i := 0; i < sc.Ingress; i++ {
 		c := o.conns[i]
+		var carried error
+		if sc.WithErr && i%2 == 0 {
+			carried = errCarried
+		}
 		vrt.Go(func() {
-			l.IngressConn(c, nil)
+			l.IngressConn(c, carried)
 			o.mu.Lock()
 			o.ingressDone++
 			o.mu.Unlock()
 		})
 	}
 	if sc.Feeder > 0 {
-		if err := l.IngressListener(&fakeListener{conns: o.conns[sc.Ingress:], given: &o.fed}); err != nil {
+		fl := &fakeListener{conns: o.conns[sc.Ingress:], given: &o.fed}
+		if sc.FeederErr {
+			fl.errFirst = 1
+		}
+		if err := l.IngressListener(fl); err != nil {
 			panic(err)
 		}
 	}
@@ -126,7 +156,8 @@ func body(sc scenario) *obs {
 			start := o.tick()
 			c, err := l.Accept()
 			rec := acceptRec{Start: start, End: o.tick(), Conn: -1}
-			if err != nil {
+			if err != nil && !(errors.Is(err, errCarried) && c != nil) {
+				// (an error that came in with a connection is handed out with it)
 				rec.Err = err.Error()
 				if !errors.Is(err, net.ErrClosed) {
 					rec.Err = "unexpected: " + rec.Err
@@ -245,6 +276,9 @@ func scenarios(c *engine.Ctx) []scenario {
 			// an attached listener that still delivers after the first Close, and a second Close
 			{Ingress: 0, Accept: 0, Close: 2, Feeder: 1},
 			{Ingress: 0, Accept: 1, Close: 2, Feeder: 1},
+			// a connection that is passed in together with an error; an attached listener that fails once
+			{Ingress: 2, Accept: 1, Close: 1, WithErr: true},
+			{Ingress: 0, Accept: 1, Close: 1, Feeder: 1, FeederErr: true},
 		}
 	}
 	var out []scenario
@@ -256,7 +290,13 @@ func scenarios(c *engine.Ctx) []scenario {
 						if k+f == 0 || k+f > 3 {
 							continue
 						}
-						out = append(out, scenario{k, m, cl, cancel, f})
+						out = append(out, scenario{Ingress: k, Accept: m, Close: cl, Cancel: cancel, Feeder: f})
+						if k == 2 && m == 1 && !cancel && f == 0 {
+							out = append(out, scenario{Ingress: k, Accept: m, Close: cl, WithErr: true})
+						}
+						if k == 0 && m == 1 && !cancel && f == 2 {
+							out = append(out, scenario{Accept: m, Close: cl, Feeder: f, FeederErr: true})
+						}
 					}
 				}
 			}
@@ -497,7 +537,7 @@ func init() {
 		ID:     "C18",
 		Level:  "exploration",
 		Binary: "sched",
-		Rule: "thread sets {ingress x k, accept x m, close x c, optional parent cancel, optional IngressListener feeder} over one real MultiplexingListener (quick: 7 scenarios with up to four harness threads; thorough: all k+feeder<=3, m<=2, c<=2, cancel on/off) explored depth-first (a) over every schedule with at most 2 preemptions (thorough: 3 for thread sets of up to four harness threads), select branches included, without any reduction, and (b) over all interleavings without a bound, reduced by sleep sets (footprint-based dependence); oracle: no deadlock, no panic, every call returns, every connection is returned by exactly one Accept xor closed, no Accept that starts after a Close returned hands out a connection; " +
+		Rule: "thread sets {ingress x k, accept x m, close x c, optional parent cancel, optional IngressListener feeder} over one real MultiplexingListener (quick: 11 scenarios with up to four harness threads, incl. a connection passed in together with an error and an attached listener that fails once with an error other than net.ErrClosed; thorough: all k+feeder<=3, m<=2, c<=2, cancel on/off) explored depth-first (a) over every schedule with at most 2 preemptions (thorough: 3 for thread sets of up to four harness threads), select branches included, without any reduction, and (b) over all interleavings without a bound, reduced by sleep sets (footprint-based dependence); oracle: no deadlock, no panic, every call returns, every connection is returned by exactly one Accept xor closed, no Accept that starts after a Close returned hands out a connection; " +
 			"evaluations = schedules executed; distinct_nontrivial = distinct (scenario, per-connection fate, accept errors) outcomes observed",
 		Assumptions: []string{"scheduling points are the synchronisation operations of net/splitlistener.go (sequential consistency between them); the shims follow the Go runtime's algorithms for RWMutex writer preference, channel hand-off, select and close", "executions beyond the preemption bound are not covered; 'randomized stress with many goroutines' is sampled by the race companion only"},
 		Shards:      func(c *engine.Ctx) int { return 16 },
